@@ -421,8 +421,12 @@ impl Writer {
         value: Option<Bytes>,
     ) -> Result<KeyDirEntry, Error> {
         // The active file must be the newest file, otherwise a restart would order the new entry
-        // before older ones. It is not when a merge or a previous switch failed half-way.
-        if self.next_fileid > self.active_fileid + 1 {
+        // before older ones. It is not when a merge or a previous switch failed half-way. It also
+        // must not be over its size limit already, which is how a write whose sync failed leaves
+        // it: that write returned before it got to switch files.
+        if self.next_fileid > self.active_fileid + 1
+            || self.written_bytes > self.ctx.conf.max_file_size
+        {
             self.new_active_datafile(self.next_fileid)?;
         }
         // Append log entry
